@@ -455,3 +455,61 @@ pub fn chain(prev: Option<u128>, obs: &str) -> u128 {
     h.write(obs.as_bytes());
     h.value()
 }
+
+/* ------------------------------------------------------------------------------------ */
+/* Process sharding (for engines whose subject reads process-global state)               */
+/* ------------------------------------------------------------------------------------ */
+
+/// `Some((i, n))` when this process is shard i of n.
+pub fn shard() -> Option<(usize, usize)> {
+    let s = std::env::var("VERIF_SHARD").ok()?;
+    let mut it = s.split('/');
+    Some((it.next()?.parse().ok()?, it.next()?.parse().ok()?))
+}
+
+/// Child side: hand the shard's result to the parent and exit.
+pub fn shard_finish(v: Value) -> ! {
+    println!("SHARD-RESULT {}", serde_json::to_string(&v).unwrap());
+    std::process::exit(0);
+}
+
+/// Parent side: re-executes this binary `n` times with VERIF_SHARD=i/n and collects the results.
+pub fn run_shards(args: &[String], n: usize) -> Vec<Value> {
+    let exe = std::env::current_exe().expect("current exe");
+    let children: Vec<_> = (0..n)
+        .map(|i| {
+            std::process::Command::new(&exe)
+                .args(args)
+                .env("VERIF_SHARD", format!("{i}/{n}"))
+                .env("VERIF_THREADS", "1")
+                .stdout(std::process::Stdio::piped())
+                .stderr(std::process::Stdio::inherit())
+                .spawn()
+                .expect("spawn shard")
+        })
+        .collect();
+    let mut out = vec![];
+    for (i, c) in children.into_iter().enumerate() {
+        let o = c.wait_with_output().expect("shard output");
+        let text = String::from_utf8_lossy(&o.stdout);
+        let line = text.lines().rev().find(|l| l.starts_with("SHARD-RESULT "));
+        match (o.status.code(), line) {
+            (Some(0), Some(l)) => out.push(serde_json::from_str(&l["SHARD-RESULT ".len()..]).expect("shard json")),
+            (code, _) => machinery(&format!("shard {i}/{n} failed (exit {:?}): {}", code, text.lines().last().unwrap_or(""))),
+        }
+    }
+    out
+}
+
+pub fn violation_to_json(v: &Violation) -> Value {
+    json!({"clause": v.clause, "key": v.key, "detail": v.detail, "replay": v.replay})
+}
+
+pub fn violation_from_json(v: &Value) -> Violation {
+    Violation {
+        clause: v["clause"].as_str().unwrap_or("").into(),
+        key: v["key"].as_str().unwrap_or("").into(),
+        detail: v["detail"].as_str().unwrap_or("").into(),
+        replay: v["replay"].clone(),
+    }
+}
